@@ -18,7 +18,7 @@ func init() {
 			"(gate-exact) the pre-/post-handler calls run under exactly the expected conditions (handler present, task successful / not resumed) — any further conjunct is reported; " +
 			"(survives) on both restore arms the checkpointed state is placed in the context whenever it is non-nil — no further condition — after the caller's state modifier ran; both save sites record it, and only when the graph owns a state (a stateless graph nested in a stateful one must not save the parent's state as its own); " +
 			"(state-required) a node with state handlers on a graph without state is rejected.",
-		decided:    []string{"lock-region", "pre-before-post-after", "gate-exact", "per-run", "survives", "state-required"},
+		decided:    []string{"lock-region", "pre-before-post-after", "gate-exact", "per-run", "survives", "state-required", "skip-marks-survive"},
 		notDecided: []string{"lost-update freedom inside user handlers", "that user handlers do not leak the state pointer", "fairness/ordering between handlers of parallel nodes"},
 		run:        runC11,
 	})
